@@ -8,6 +8,7 @@ like this model (its value at a location is the model's value with its own coeff
 the FIT domain, whatever else is requested) is what the correspondence checks.
 -/
 import FDAProofs.Lemmas.Predict
+import FDAProofs.Lemmas.PredictBSpline
 import FDAProofs.Lemmas.LocalPoly
 import Mathlib.Tactic.NormNum
 import Mathlib.Tactic.Linarith
@@ -120,6 +121,111 @@ theorem value_uses_local_coefficients (f : Fit1) (β' : ℕ → ℚ) (q : ℚ) (
     · rw [bspline_zero_right _ _ _ _ _ _ (not_lt.mp h2)]; simp
   · rw [bspline_zero_left _ _ _ _ _ _ hdx (not_le.mp h1)]; simp
 
+
+/-! ### Tie to the shared B-spline model (`FDAModel/BSpline.lean`) and its consequences for predictions -/
+
+/-- **Tie to the shared B-spline model.**  The basis functions `Predict.lean` evaluates are the ones of
+`FDAModel/BSpline.lean` (`FDA.BSpline.bsplineBasis`, the step-by-step mirror of `_basis_bsplines` used by
+C05/C18), for every degree, size and location. -/
+theorem predict_basis_eq_bspline (f : Fit1) (hn : 0 < f.nseg) (hd : f.dmin < f.dmax) (j : ℕ)
+    (hj : j < nFun f.nseg f.deg) (q : ℚ) :
+    bspline f.dmin f.dmax f.nseg f.deg j q = FDA.BSpline.bsplineBasis f.dmin f.dmax (f.nseg + f.deg) f.deg q j :=
+  bspline_eq_shared f.dmin f.dmax f.nseg f.deg hn hd j hj q
+
+/-- Hence a prediction is the shared basis contracted with the coefficients. -/
+theorem evalSpline_eq_shared (f : Fit1) (hn : 0 < f.nseg) (hd : f.dmin < f.dmax) (q : ℚ) :
+    evalSpline f q = ∑ j ∈ range (f.nseg + f.deg),
+      f.beta j * FDA.BSpline.bsplineBasis f.dmin f.dmax (f.nseg + f.deg) f.deg q j := by
+  unfold evalSpline
+  apply Finset.sum_congr rfl
+  intro j hj
+  rw [predict_basis_eq_bspline f hn hd j (mem_range.mp hj) q]
+
+/-- Partition of unity ⇒ a fit with constant coefficients predicts that constant at every location of the
+fit domain (both end points included), whatever else is requested — every degree `≥ 1`. -/
+theorem predict_const (f : Fit1) (c : ℚ) (hn : 0 < f.nseg) (hd : f.dmin < f.dmax) (hdeg : 1 ≤ f.deg)
+    (hβ : ∀ j, j < nFun f.nseg f.deg → f.beta j = c) (Q : List ℚ) (hQ : ∀ q ∈ Q, f.dmin ≤ q ∧ q ≤ f.dmax) :
+    predict f Q = Q.map fun _ => c := by
+  unfold predict
+  apply List.map_congr_left
+  intro q hq
+  unfold evalSpline
+  have : ∀ j ∈ range (nFun f.nseg f.deg), f.beta j * bspline f.dmin f.dmax f.nseg f.deg j q
+      = c * bspline f.dmin f.dmax f.nseg f.deg j q := fun j hj => by rw [hβ j (mem_range.mp hj)]
+  rw [Finset.sum_congr rfl this, ← Finset.mul_sum,
+    bspline_sum_one f.dmin f.dmax f.nseg f.deg hn hd hdeg q (hQ q hq).1 (hQ q hq).2, mul_one]
+
+/-- Non-negativity + partition of unity ⇒ a prediction inside the fit domain lies in the convex hull of the
+locally active coefficients: if every coefficient whose basis function has `q` in its support
+`[t_j, t_{j+deg+1})` lies in `[lo, hi]`, so does the predicted value. -/
+theorem predict_in_hull_of_active (f : Fit1) (lo hi q : ℚ) (hn : 0 < f.nseg) (hd : f.dmin < f.dmax)
+    (hdeg : 1 ≤ f.deg) (hq : f.dmin ≤ q ∧ q ≤ f.dmax)
+    (hβ : ∀ j, j < nFun f.nseg f.deg → knot f.dmin f.dmax f.nseg f.deg j ≤ q →
+      q < knot f.dmin f.dmax f.nseg f.deg (j + f.deg + 1) → lo ≤ f.beta j ∧ f.beta j ≤ hi) :
+    lo ≤ evalSpline f q ∧ evalSpline f q ≤ hi := by
+  have hsum := bspline_sum_one f.dmin f.dmax f.nseg f.deg hn hd hdeg q hq.1 hq.2
+  have hdx : 0 ≤ dx f.dmin f.dmax f.nseg := (dx_pos' f.dmin f.dmax f.nseg hn hd).le
+  have key : ∀ j ∈ range (nFun f.nseg f.deg),
+      lo * bspline f.dmin f.dmax f.nseg f.deg j q ≤ f.beta j * bspline f.dmin f.dmax f.nseg f.deg j q ∧
+      f.beta j * bspline f.dmin f.dmax f.nseg f.deg j q ≤ hi * bspline f.dmin f.dmax f.nseg f.deg j q := by
+    intro j hj
+    have hB := bspline_nonneg f.dmin f.dmax f.nseg f.deg hn hd j q
+    by_cases h1 : knot f.dmin f.dmax f.nseg f.deg j ≤ q
+    · by_cases h2 : q < knot f.dmin f.dmax f.nseg f.deg (j + f.deg + 1)
+      · obtain ⟨a, b⟩ := hβ j (mem_range.mp hj) h1 h2
+        exact ⟨mul_le_mul_of_nonneg_right a hB, mul_le_mul_of_nonneg_right b hB⟩
+      · rw [bspline_zero_right _ _ _ _ _ _ (not_lt.mp h2)]; simp
+    · rw [bspline_zero_left _ _ _ _ _ _ hdx (not_le.mp h1)]; simp
+  unfold evalSpline
+  constructor
+  · calc lo = lo * ∑ j ∈ range (nFun f.nseg f.deg), bspline f.dmin f.dmax f.nseg f.deg j q := by rw [hsum, mul_one]
+      _ = ∑ j ∈ range (nFun f.nseg f.deg), lo * bspline f.dmin f.dmax f.nseg f.deg j q := Finset.mul_sum _ _ _
+      _ ≤ _ := Finset.sum_le_sum fun j hj => (key j hj).1
+  · calc ∑ j ∈ range (nFun f.nseg f.deg), f.beta j * bspline f.dmin f.dmax f.nseg f.deg j q
+        ≤ ∑ j ∈ range (nFun f.nseg f.deg), hi * bspline f.dmin f.dmax f.nseg f.deg j q :=
+          Finset.sum_le_sum fun j hj => (key j hj).2
+      _ = hi * ∑ j ∈ range (nFun f.nseg f.deg), bspline f.dmin f.dmax f.nseg f.deg j q := (Finset.mul_sum _ _ _).symm
+      _ = hi := by rw [hsum, mul_one]
+
+/-- In particular a prediction inside the domain never leaves the range of all the coefficients. -/
+theorem predict_between_min_max (f : Fit1) (lo hi q : ℚ) (hn : 0 < f.nseg) (hd : f.dmin < f.dmax)
+    (hdeg : 1 ≤ f.deg) (hq : f.dmin ≤ q ∧ q ≤ f.dmax)
+    (hβ : ∀ j, j < nFun f.nseg f.deg → lo ≤ f.beta j ∧ f.beta j ≤ hi) :
+    lo ≤ evalSpline f q ∧ evalSpline f q ≤ hi :=
+  predict_in_hull_of_active f lo hi q hn hd hdeg hq fun j hj _ _ => hβ j hj
+
+/-- The value at `q` depends on at most `degree + 1` coefficients: at most that many basis functions are
+non-zero at any location. -/
+theorem at_most_degree_plus_one_active (f : Fit1) (hn : 0 < f.nseg) (hd : f.dmin < f.dmax) (q : ℚ) :
+    ((range (nFun f.nseg f.deg)).filter fun j => bspline f.dmin f.dmax f.nseg f.deg j q ≠ 0).card ≤ f.deg + 1 := by
+  have hh := dx_pos' f.dmin f.dmax f.nseg hn hd
+  set S := (range (nFun f.nseg f.deg)).filter fun j => bspline f.dmin f.dmax f.nseg f.deg j q ≠ 0 with hS
+  by_cases hne : S.Nonempty
+  · set j0 := S.min' hne with hj0
+    have hsub : S ⊆ Finset.Icc j0 (j0 + f.deg) := by
+      intro j hjS
+      have hj0S : j0 ∈ S := Finset.min'_mem S hne
+      have hjne := (Finset.mem_filter.mp hjS).2
+      have hj0ne := (Finset.mem_filter.mp hj0S).2
+      have h1 : knot f.dmin f.dmax f.nseg f.deg j ≤ q := by
+        by_contra hc
+        exact hjne (bspline_zero_left _ _ _ _ _ _ hh.le (not_le.mp hc))
+      have h2 : q < knot f.dmin f.dmax f.nseg f.deg (j0 + f.deg + 1) := by
+        by_contra hc
+        exact hj0ne (bspline_zero_right _ _ _ _ _ _ (not_lt.mp hc))
+      have hlt : knot f.dmin f.dmax f.nseg f.deg j < knot f.dmin f.dmax f.nseg f.deg (j0 + f.deg + 1) :=
+        lt_of_le_of_lt h1 h2
+      unfold knot at hlt
+      have : (j : ℚ) < ((j0 + f.deg + 1 : ℕ) : ℚ) := by
+        by_contra hc
+        have hc := not_lt.mp hc
+        nlinarith
+      have hjlt : j < j0 + f.deg + 1 := by exact_mod_cast this
+      rw [Finset.mem_Icc]
+      exact ⟨Finset.min'_le S j hjS, by omega⟩
+    calc S.card ≤ (Finset.Icc j0 (j0 + f.deg)).card := Finset.card_le_card hsub
+      _ = f.deg + 1 := by simp; omega
+  · rw [Finset.not_nonempty_iff_eq_empty.mp hne]; simp
 
 /-! ### The repaired defect: a basis rebuilt on the range of the query points -/
 
@@ -259,6 +365,11 @@ example : ([0, 1 / 4, 1 / 2, 1] : List ℚ).min? = some 0 ∧ ([0, 1 / 4, 1 / 2,
   constructor <;> decide +kernel
 /-- `bspline_zero_left`, `value_uses_local_coefficients`: a regular fit domain has `dx > 0`. -/
 example : (0 : ℚ) ≤ dx 0 1 4 := by norm_num [dx]
+/-- `predict_const`, `predict_in_hull_of_active`, `predict_basis_eq_bspline`: a regular fit (4 segments, cubic,
+`[0,1]`) with constant coefficients, evaluated at both end points and inside. -/
+example : predict { dmin := 0, dmax := 1, nseg := 4, deg := 3, beta := fun _ => 5 / 2 } [0, 1 / 3, 1] = [5 / 2, 5 / 2, 5 / 2] := by
+  decide +kernel
+example : (0 : ℕ) < 4 ∧ (0 : ℚ) < 1 ∧ 1 ≤ 3 := by norm_num
 example : ∀ i ∈ [2, 0, 1], i < ([0, 1 / 4, 1 / 2] : List ℚ).length := by decide
 
 end C07
